@@ -18,6 +18,13 @@ INITIALLY_MISSED = {  # seeded changes the checks did not catch when first run a
     "C17-3": "loss/price evaluated with n_times=1 only; n_times>1 added",
     "C05-3": "utility exponent a|x| capped at 80 for both dtypes; now up to the dtype's range (84 / 700)",
     "C08-3": "user pricers consumed one spot-like parameter; now also `spot` together with `(log_)moneyness`",
+    "C12-1": "clauses were registered under names whose alphabetical order equals the registration order; names now deliberately out of order",
+    "C12-3": "NOT detectable by design (see below): differs from the original only where start/dt is within rounding of an integer",
+    "C06-r2-1": "a|x| capped at 20 for every criterion; the entropic risk measure (closed-form cash) now also gets a|x| up to 3000",
+    "C06-r2-3": "price() checked with cash-invariant criteria only; isoelastic and a user power utility (with an endowment clause) added",
+    "C03-r2-3": "single steps were always requested in increasing consecutive order; second round now skips forward and comes back",
+    "C11-r2-1": "no cast between the simulations of an instrument history; casts (after the volatility/variance properties were read) added",
+    "C14-r2-1": "no gradient path through prices; a listed hedging instrument whose quote depends on a model parameter added",
     "C19-1": "bracket tensors used once; now a second search with the same bracket objects vs fresh copies (differential)",
 }
 
